@@ -85,8 +85,9 @@ Record ihandler := {
   ih_src : option nat;      (* handler.source if it is a screen (a registered source); None = an InputManager *)
   ih_owner : nat;           (* the screen whose InputManager created it *)
   ih_cb : bool;             (* one-shot callback (InputManager.process_input of the owner) still set *)
-  ih_received : bool; ih_success : bool; ih_value : option str }.
-#[export] Instance eta_ih : Settable _ := settable! Build_ihandler <ih_src; ih_owner; ih_cb; ih_received; ih_success; ih_value>.
+  ih_received : bool; ih_success : bool; ih_value : option str;
+  ih_args : nat }.          (* the arguments bound into the callback: those of the request this handler carries *)
+#[export] Instance eta_ih : Settable _ := settable! Build_ihandler <ih_src; ih_owner; ih_cb; ih_received; ih_success; ih_value; ih_args>.
 
 Record sstate := {
   st_stack : list sdata;            (* ScreenStack._screens, TOP FIRST *)
@@ -145,7 +146,7 @@ Fixpoint upd_nth {A} (l : list A) (n : nat) (f : A -> A) : list A :=
   end.
 Definition upd_scr (s : nat) (f : scrst -> scrst) (u : sstate) : sstate := u <| st_scr := upd_nth (st_scr u) s f |>.
 Definition ih_of (u : sstate) (n : nat) : ihandler :=
-  nth n (st_ih u) {| ih_src := None; ih_owner := 0; ih_cb := false; ih_received := false; ih_success := false; ih_value := None |}.
+  nth n (st_ih u) {| ih_src := None; ih_owner := 0; ih_cb := false; ih_received := false; ih_success := false; ih_value := None; ih_args := 0 |}.
 Definition upd_ih (n : nat) (f : ihandler -> ihandler) (u : sstate) : sstate := u <| st_ih := upd_nth (st_ih u) n f |>.
 
 Definition render_spec (src : option nat) : sigspec :=
@@ -223,7 +224,8 @@ Section Screens.
   Definition new_input_handler (src : option nat) (owner : nat) (cb : bool) (k : nat -> sprog) : sprog :=
     rd (fun u => let n := length (st_ih u) in
                  wr (fun u => u <| st_ih := st_ih u ++ [{| ih_src := src; ih_owner := owner; ih_cb := cb;
-                                                          ih_received := false; ih_success := false; ih_value := None |}] |>) ;;
+                                                          ih_received := false; ih_success := false; ih_value := None;
+                                                          ih_args := 0 |}] |>) ;;
                  PApi (ARegHandler CLS_READY (H_READY n) 0) ;; k n).
 
   (* InputHandler.get_input(prompt): _clear_input(); start_input_thread(request, not skip) *)
@@ -411,7 +413,9 @@ Section Screens.
     else
       rd (fun u => ev T_REQ [scr; args; length (st_ih u)]) ;;        (* prompt(args) returned a prompt *)
       wr (upd_scr scr (fun s => s <| ss_input_args := args |>)) ;;
-      new_input_handler (Some scr) scr true (fun n => handler_get_input n (sc_skip_check (spec scr))).
+      (* handler.set_callback(partial(self._process_request_input, args)): the arguments belong to the request *)
+      new_input_handler (Some scr) scr true (fun n =>
+        wr (upd_ih n (fun h => h <| ih_args := args |>)) ;; handler_get_input n (sc_skip_check (spec scr))).
 
   Definition push_screen_modal (s a : nat) : sprog := do_scmd PRet 0 0 (SPushModal s a).
 
@@ -456,7 +460,10 @@ Section Screens.
       else
         wr (upd_ih n (fun h => h <| ih_value := Some (sg_data sg) |>)) ;;
         rd (fun u => if ih_cb (ih_of u n)
-                     then wr (upd_ih n (fun h => h <| ih_cb := false |>)) ;; process_input (ih_owner (ih_of u n)) (sg_data sg)
+                     then wr (upd_ih n (fun h => h <| ih_cb := false |>)) ;;
+                          (* _process_request_input(args, user_input): self._input_args = args; self.process_input(user_input) *)
+                          wr (upd_scr (ih_owner (ih_of u n)) (fun s => s <| ss_input_args := ih_args (ih_of u n) |>)) ;;
+                          process_input (ih_owner (ih_of u n)) (sg_data sg)
                      else PRet).
 
   (* ---------------- ScreenScheduler._process_screen / _draw_screen ---------------- *)
